@@ -318,6 +318,12 @@ impl Header for Multiboot2BasicHeader {
         self.length as usize - size_of::<Self>()
     }
 
+    fn total_size(&self) -> usize {
+        // Must not be derived from `payload_len()`: a (corrupt) length
+        // smaller than the header has to be reported as error, not as panic.
+        self.length as usize
+    }
+
     fn set_size(&mut self, total_size: usize) {
         self.length = total_size as u32;
         self.checksum = Self::calc_checksum(self.header_magic, self.arch, total_size as u32);
